@@ -514,54 +514,6 @@ static std::string DoEndianSweep(const std::vector<Sx>& a) {
   return "HARNESS-ERROR kind";
 }
 
-// ------------------------------------------- compile-time serialization --
-namespace cx {
-template <typename T, size_t Size>
-struct Arr {
-  T elements[Size];
-  constexpr T* data() { return elements; }
-  constexpr const T* data() const { return elements; }
-  constexpr size_t size() const { return Size; }
-  NOP_VALUE(Arr, elements);
-};
-template <std::size_t Size, typename T>
-constexpr auto Ser(const T& value) {
-  Arr<std::uint8_t, Size> bytes{{}};
-  nop::Serializer<nop::ConstexprBufferWriter> serializer{bytes.data(), bytes.size()};
-  auto status = serializer.Write(value);
-  return status ? bytes : throw status;
-}
-struct S1 { std::uint8_t a; std::uint32_t b; std::int64_t c; std::int16_t d; NOP_STRUCTURE(S1, a, b, c, d); };
-struct S2 { S1 s; Arr<std::uint16_t, 3> v; bool f; NOP_STRUCTURE(S2, s, v, f); };
-struct T1 { nop::Entry<int, 0> a; nop::Entry<char, 1> b; nop::Entry<Arr<char, 10>, 2> c; nop::Entry<std::uint64_t, 300> d;
-            NOP_TABLE_NS("Verif.Cx", T1, a, b, c, d); };
-constexpr S1 kS1{200, 0xa5a5a5a5u, -4000000000LL, -129};
-constexpr S2 kS2{{127, 65536, 2147483648LL, 127}, {{0, 255, 65535}}, true};
-constexpr T1 kT1{-65, 'z', {{{'h', 'e', 'l', 'l', 'o', 0, 0, 0, 0, 0}}}, 0xffffffffffffffffULL};
-constexpr Arr<S1, 2> kA{{{1, 2, 3, 4}, {128, 256, -32769, -64}}};
-constexpr auto kB1 = Ser<nop::Encoding<S1>::Size(kS1)>(kS1);
-constexpr auto kB2 = Ser<nop::Encoding<S2>::Size(kS2)>(kS2);
-constexpr auto kB3 = Ser<nop::Encoding<T1>::Size(kT1)>(kT1);
-constexpr auto kB4 = Ser<nop::Encoding<Arr<S1, 2>>::Size(kA)>(kA);
-template <typename T>
-std::string RunTime(const T& v) {
-  std::size_t n = nop::Encoding<T>::Size(v);
-  OutBuf ob(n);
-  nop::Serializer<nop::ConstexprBufferWriter> s{ob.p, n};
-  auto st = s.Write(v);
-  std::vector<std::uint8_t> out;
-  { nop::Serializer<IWriter> s2; (void)s2.Write(v); out = s2.writer().out; }
-  return std::string(st ? "" : "FAILED ") + Hex(ob.p, n) + "/" + Hex(out);
-}
-}  // namespace cx
-static std::string DoCx() {
-  using namespace cx;
-  return "s1=" + Hex(kB1.data(), kB1.size()) + "/" + RunTime(kS1) +
-         " s2=" + Hex(kB2.data(), kB2.size()) + "/" + RunTime(kS2) +
-         " t1=" + Hex(kB3.data(), kB3.size()) + "/" + RunTime(kT1) +
-         " a=" + Hex(kB4.data(), kB4.size()) + "/" + RunTime(kA);
-}
-
 int main() {
   std::ios::sync_with_stdio(false);
   std::string line;
@@ -574,7 +526,6 @@ int main() {
       if (op == "rseq") out = DoRseq(a);
       else if (op == "wseq") out = DoWseq(a);
       else if (op == "sip") out = DoSip(a);
-      else if (op == "cxcases") out = DoCx();
       else if (op == "sipnames") out = DoSipNames();
       else if (op == "siparr") out = DoSipArr(a);
       else if (op == "sipbig") out = DoSipBig(a);
